@@ -9,6 +9,7 @@ import (
 	"github.com/google/uuid"
 	"github.com/internetarchive/Zeno/internal/pkg/config"
 	"github.com/internetarchive/Zeno/internal/pkg/log"
+	"github.com/internetarchive/Zeno/internal/pkg/verifhook"
 	"github.com/internetarchive/Zeno/pkg/models"
 	"github.com/internetarchive/gocrawlhq"
 )
@@ -87,6 +88,7 @@ func finisherReceiver(ctx context.Context, wg *sync.WaitGroup, batchCh chan *fin
 			logger.Debug("closed")
 			return
 		case item := <-globalHQ.finishCh:
+			verifhook.At("hq.fin.recv", item)
 			logger.Debug("received item", "item", item.GetShortID())
 
 			var value string
@@ -111,6 +113,7 @@ func finisherReceiver(ctx context.Context, wg *sync.WaitGroup, batchCh chan *fin
 				logger.Debug("sending batch to dispatcher", "size", len(batch.URLs))
 				// Send the batch to batchCh.
 				copyBatch := *batch
+				verifhook.At("hq.fin.cut", "size", copyBatch.URLs)
 				select {
 				case <-ctx.Done():
 					logger.Debug("closed")
@@ -123,9 +126,11 @@ func finisherReceiver(ctx context.Context, wg *sync.WaitGroup, batchCh chan *fin
 				ticker.Reset(maxWaitTime)
 			}
 		case <-ticker.C:
+			verifhook.At("hq.fin.tick", len(batch.URLs))
 			if len(batch.URLs) > 0 {
 				logger.Debug("sending non-full batch to dispatcher", "size", len(batch.URLs))
 				copyBatch := *batch
+				verifhook.At("hq.fin.cut", "timer", copyBatch.URLs)
 				select {
 				case <-ctx.Done():
 					logger.Debug("closed")
@@ -161,6 +166,7 @@ func finisherDispatcher(ctx context.Context, wg *sync.WaitGroup, batchCh chan *f
 			logger.Debug("closed")
 			return
 		case batch := <-batchCh:
+			verifhook.At("hq.fin.dispatch", batch.URLs)
 			batchUUID := uuid.NewString()[:6]
 			senderSemaphore <- struct{}{} // Blocks if maxSenders reached.
 			senderWg.Add(1)
@@ -187,7 +193,9 @@ func finisherSender(ctx context.Context, batch *finishBatch, batchUUID string) {
 	logger.Debug("sending batch to HQ", "size", len(batch.URLs))
 
 	for {
+		verifhook.At("hq.fin.delete", batch.URLs)
 		err := globalHQ.client.Delete(context.TODO(), batch.URLs, batch.ChildsCaptured)
+		verifhook.At("hq.fin.deleted", batch.URLs, err)
 		select {
 		case <-ctx.Done():
 			logger.Debug("closing")
